@@ -295,7 +295,7 @@ def w_tunnel_address() -> Part:
 
 
 def run(ctx: Ctx) -> None:
-    bound = 3 if ctx.thorough else 2
+    bound = 5 if ctx.thorough else 3
     ctx.rule = (
         "(a) routing matrix, complete: every cEMI message code x destination {group, broadcast, own IA, foreign IA, 0.0.0} x every admissible TPCI kind x 2 control variants x own address "
         "{1.1.5, 0.0.0} through the real CEMIHandler.handle_raw_cemi, consumers counted (telegram queue / Management.process) against a reference table; "
